@@ -6,7 +6,7 @@ import MysticVerif.Model.Solver
 import MysticVerif.Model.NelderMead
 import MysticVerif.Model.PowellS
 import MysticVerif.Model.ClosedLoop
-import MysticVerif.Drv.C10
+import MysticVerif.Drv.TermParse
 
 namespace MysticVerif.SolverDrv
 open MysticVerif MysticVerif.Dsl MysticVerif.Solver
@@ -327,7 +327,7 @@ open MysticVerif.Closed in
 def handleSolve (args : List Val) : String := Id.run do
   let some su := parseSetup args | return "bad-op"
   let some (.sym kind) := kw? args "kind" | return "bad-op"
-  let some e := (kw? args "term").bind DrvC10.parseExpr | return "bad-op"
+  let some e := (kw? args "term").bind TermParse.parseExpr | return "bad-op"
   let some (.list [.int si, .int se]) := kw? args "scale" | return "bad-op"
   let some (.list [lg, le]) := kw? args "limits" | return "bad-op"
   let some g := optNat lg | return "bad-op"
